@@ -3,7 +3,7 @@
     byte stream [s : list N], every msize, every [lookup] (what lookup(tag,type)
     answers) and every body decoder verdict [dec]. *)
 From Coq Require Import NArith List Bool.
-From P9V Require Import gen.ConstGen Frame.Model Frame.ListN Frame.FrameProofs Frame.Instantiate.
+From P9V Require Import gen.ConstGen Frame.Model Frame.ListN Frame.FrameProofs Frame.Instantiate Frame.DecodeProg Frame.DecodeTie Frame.RecvLL Frame.Reader Frame.Imp gen.VecGen Frame.VecTie.
 Require P9V.Codec.GenCheck P9V.gen.CodecGen P9V.Codec.Spec9P P9V.Codec.Reuse.
 Import ListNotations.
 Open Scope N_scope.
@@ -184,11 +184,84 @@ Section SpecIsSource.
 End SpecIsSource.
 Print Assumptions C02_spec_is_source.
 
-(** "never panics": in these models the clause holds BY CONSTRUCTION -- [outcome] has no panic
-    constructor, recv and the decoders are total Gallina functions -- so it is not a theorem about the
-    Go code.  Its observed half is the harness: every recv call runs under recover, and the thorough
-    tier feeds random and mutated streams to the real recv and to a live Server.Handle for minutes;
-    a Go panic or hang is a violation with the stream as replay. *)
+(** ** inside the decoders: the decode PROGRAMS go2coq reads off the Go decode methods (gen/CodecGen.v gm_dec),
+    run the way recv runs them (Codec/Reuse.v recv_into: into a recycled object [old], through a pooled scratch
+    buffer with arbitrary previous content [dirty], cut to the body) *)
+Section Programs.
+  Import P9V.Codec.Layout P9V.Codec.Frame P9V.Codec.Reuse P9V.gen.CodecGen P9V.Codec.GenCheck.
+
+  (** for every registered type the program accepts a body iff the layout decoder accepts exactly those bytes:
+      a body too short for the fields of its type, a count that disagrees with the payload length, a string or
+      list running past the end are REJECTED for every object state and every pool content -- a frame is never
+      completed from bytes outside it.  (all 65 programs: table obligation DecodeTie.all_good) *)
+  Theorem C02_program_verdict : forall g ml old dirty body,
+    In g gen_msgs -> layout_of (gm_dec g) = Some ml ->
+    is_some (recv_into g old dirty body) = is_some (recv_body ml body).
+  Proof.
+    intros g ml old dirty body Hin Hl. apply recv_into_is_recv_body.
+    pose proof all_good as G. rewrite forallb_forall in G. specialize (G g Hin). unfold good_gen in G.
+    now rewrite Hl in G.
+  Qed.
+
+  (** hence recv and the receive loop with the programs as decode step are recv / the loop with the layout decoder
+      of Frame/Instantiate.v, on every stream: C02_deliver_values, C02_deliver_sent, C02_models_agree (stated for
+      any table) hold of the generated programs with tbl := gen_dec_registry *)
+  Theorem C02_recv_with_programs : forall old dirty closed msize s,
+    Model.recv (lookup_codec gen_dec_registry) (decode_prog old dirty) closed msize s =
+    Model.recv (lookup_codec gen_dec_registry) (decode_codec gen_dec_registry) closed msize s.
+  Proof. exact recv_with_programs. Qed.
+
+  Theorem C02_serve_with_programs : forall old dirty closed msize s,
+    Model.serve (lookup_codec gen_dec_registry) (decode_prog old dirty) closed msize s =
+    Model.serve (lookup_codec gen_dec_registry) (decode_codec gen_dec_registry) closed msize s.
+  Proof. exact serve_with_programs. Qed.
+
+  (** the buffer handed to decode is the pooled slice limited to the body; handing over the whole pooled slice
+      (seeded change C02-m3) is expressible in the model and refuted: a 4-byte Tversion body is rejected for every
+      pool, but completed from a stale version string by the unsliced variant *)
+  Theorem C02_unsliced_buffer_refuted :
+    In gen_msg_msgTversion gen_msgs /\
+    (forall old dirty, recv_into gen_msg_msgTversion old dirty [0; 32; 0; 0] = None) /\
+    is_some (recv_into_unsliced gen_msg_msgTversion [] stale_pool [0; 32; 0; 0]) = true.
+  Proof. exact unsliced_buffer_refuted. Qed.
+End Programs.
+Print Assumptions C02_program_verdict.
+Print Assumptions C02_recv_with_programs.
+Print Assumptions C02_serve_with_programs.
+Print Assumptions C02_unsliced_buffer_refuted.
+
+(** the recvmsg path below recv (C02-m4 lives there): the iovec-advance statements of readFromBuffersLinux as
+    go2coq VecGen reads them, run against the model's consume_iov -- bounded exhaustive, see C17_vec_advance_agrees_bounded *)
+Theorem C02_vec_advance_agrees_bounded : forall views cur,
+  In views universe -> cur <= sumN views ->
+  match run_advance vec_advance vec_cur_name cur views, consume_iov cur views with
+  | Some a, Some b => a = b
+  | None, None => True
+  | _, _ => False
+  end.
+Proof. exact vec_advance_agrees. Qed.
+Print Assumptions C02_vec_advance_agrees_bounded.
+
+(** "never panics".  recv written with Go's PARTIAL operations (Frame/RecvLL.v: uint32 subtractions that wrap,
+    data[:size] on a pooled slice of any length -- a run-time panic when out of range --, make sized by a
+    difference) and an explicit panic outcome: on every stream, msize, lookup, decoder and pool it returns [LVal] of the
+    total model -- the panic outcome is unreachable and no difference wraps (the size tests come first) *)
+Theorem C02_recv_no_panic : forall lookup dec closed msize pool s,
+  recv_ll lookup dec closed msize pool s = LVal (recv lookup dec closed msize s).
+Proof. exact recv_ll_total. Qed.
+Print Assumptions C02_recv_no_panic.
+
+Theorem C02_recv_never_panics : forall lookup dec closed msize pool s,
+  recv_ll lookup dec closed msize pool s <> LPanic.
+Proof. exact recv_never_panics. Qed.
+Print Assumptions C02_recv_never_panics.
+
+(** What remains BY CONSTRUCTION (not a theorem about the Go code): inside the decoders a failed bounds check is the
+    [None] of the option monad (Codec/Layout.v; buffer.go's consume/has/ReadString are matched exactly by go2coq
+    CodecGen and refused otherwise), the decode programs have no statement that can index (C02_program_verdict: they
+    are the canonical programs of their layouts), and the scheduler/runtime is outside the model.  The observed half
+    is the harness: every recv call runs under recover, the fuzz-style loop feeds random and mutated streams to the
+    real recv and to a live Server.Handle; a Go panic or hang is a violation with the stream as replay. *)
 
 (** the hypotheses are satisfiable: an 11-byte frame of type 120 (Tclunk) with tag 5 *)
 Example C02_wd_example : well_delimited 8192 [11; 0; 0; 0; 120; 5; 0; 1; 0; 0; 0].
